@@ -135,3 +135,12 @@ func DebugLoopFlags(p *core.Program) {
 		}
 	}
 }
+
+// DebugRangeString lists loops that range over a string and index that string with the range key.
+func DebugRangeString(p *core.Program) {
+	for _, fn := range p.ModuleFunctions() {
+		for _, site := range rangeStringByteIndex(fn) {
+			fmt.Println(p.Pos(core.PosOf(site)), core.FuncName(fn))
+		}
+	}
+}
